@@ -634,6 +634,9 @@ def tasks(tier):
         out.append(("sequences-%d" % k, task_sequences, dict(n=7000)))
     for k in range(5):
         out.append(("fasta-%d" % k, task_fasta, dict(n=6000)))
+    # coverage-guided tier (pbt/fuzz.py): libFuzzer drives the strategies and oracles of these tasks
+    from .. import fuzz
+    fuzz.extend(out, PROPERTY, ["sequences-0"])
     return out
 
 
